@@ -4,6 +4,7 @@ package checks
 
 import (
 	"encoding/hex"
+	"encoding/json"
 	"fmt"
 	"sort"
 	"strings"
@@ -519,7 +520,7 @@ func c13DrawDoc(rt *rapid.T, corp *gen.Corpus) c13Doc {
 	case 8:
 		if rapid.Bool().Draw(rt, "graphModel") {
 			// graph-profile models (tuple-to-userset targets resolve) carrying one of the recurring ids
-			pm := gen.GraphModel(rt, gen.GraphOpts{MultiThis: true, SmallModels: rapid.Bool().Draw(rt, "small")}).Proto()
+			pm := gen.GraphModel(rt, gen.GraphOpts{MultiThis: true, SmallModels: rapid.Bool().Draw(rt, "small"), Scale: true, SparseMeta: true}).Proto()
 			pm.Id = rapid.SampledFrom([]string{"", "01HVMMBCMGZNT3SED4Z17ECXCA", "01HVMMBCMGZNT3SED4Z17ECXCB"}).Draw(rt, "modelID")
 			js, _ := protojson.Marshal(pm)
 			return c13Doc{Kind: "json", Text: string(js)}
@@ -624,6 +625,56 @@ func TestC13(t *testing.T) {
 	rec.Bulk(int64(cold), int64(cold), map[string]int64{"cold:child-process-parses": int64(cold), "cold:inconclusive": int64(inconclusive)})
 	if coldViolation != "" {
 		t.Fatalf("%s", coldViolation)
+	}
+	// "calls independent of history", the shortest history there is: what a process does FIRST. State that is set up
+	// lazily by whichever call comes first (a separator, a table, a pooled object) shows only in the second call of a
+	// fresh process, and only when the first call was of a particular kind: a fresh child performs A then B, another
+	// fresh child only B; B's results must agree. A and B are of the same kind (merge, DSL, JSON, manifest, strings).
+	t.Run("first-call", rapid.MakeCheck(func(rt *rapid.T) {
+		kind := rapid.SampledFrom([]string{"merge", "merge", "dsl", "json", "modfile", "strings"}).Draw(rt, "firstKind")
+		draw := func(label string) c13Doc {
+			switch kind {
+			case "merge":
+				ms := gen.Modules(rt, gen.ModOpts{MaxConflicts: 1, MaxFiles: 3, Layout: rapid.Bool().Draw(rt, label+"Layout")})
+				d := c13Doc{Kind: "merge", Text: ms.Files[0].Text}
+				for _, f := range ms.Files[1:] {
+					d.More = append(d.More, f.Text)
+				}
+				if rapid.Bool().Draw(rt, label+"CRLF") {
+					d.Text = strings.ReplaceAll(strings.ReplaceAll(d.Text, "\r\n", "\n"), "\n", "\r\n")
+					for i := range d.More {
+						d.More[i] = strings.ReplaceAll(strings.ReplaceAll(d.More[i], "\r\n", "\n"), "\n", "\r\n")
+					}
+				}
+				return d
+			case "dsl":
+				all := append(append([]string{}, corp.DSL...), corp.Syntax...)
+				if rapid.Bool().Draw(rt, label+"Generated") {
+					m := gen.DSLModel(rt, gen.DSLOpts{Rich: true, Conditions: true, MaxTypes: 3, MaxRels: 3})
+					return c13Doc{Kind: "dsl", Text: gen.Render(m, &rapidChooser{t: rt}, gen.RenderOpts{}).Text}
+				}
+				return c13Doc{Kind: "dsl", Text: rapid.SampledFrom(all).Draw(rt, label+"Doc")}
+			case "json":
+				if rapid.Bool().Draw(rt, label+"Corpus") {
+					return c13Doc{Kind: "json", Text: rapid.SampledFrom(corp.JSON).Draw(rt, label+"Doc")}
+				}
+				js, _ := protojson.Marshal(c14Draw(rt).Model.Proto())
+				return c13Doc{Kind: "json", Text: string(js)}
+			case "modfile":
+				return c13Doc{Kind: "modfile", Text: c15GenManifest(rt).Text}
+			}
+			return c13Doc{Kind: "strings", Text: c18GenString(rt), More: []string{c18GenString(rt), "document:1", "group:eng#member"}}
+		}
+		a, b := draw("a"), draw("b")
+		msg, nt := c13FirstCall(a, b)
+		rec.Case([]any{"first-call", a, b}, nt, nil, "first-call:"+kind)
+		if msg != "" {
+			rec.Violation(c13Input{Steps: []c13Step{{Op: "first-call-a", Doc: &a}, {Op: "first-call-b", Doc: &b}}}, msg)
+			rt.Fatalf("%s", msg)
+		}
+	}))
+	if t.Failed() {
+		return
 	}
 	rapid.Check(t, func(rt *rapid.T) {
 		mc := &c13Machine{}
@@ -733,6 +784,26 @@ func TestC13(t *testing.T) {
 	})
 }
 
+// c13FirstCall: a fresh process that performs a, then b, and a fresh process that performs only b must agree on b.
+func c13FirstCall(a, b c13Doc) (msg string, conclusive bool) {
+	op := map[string]string{"dsl": "dsl", "json": "jsonall", "modfile": "modfile", "merge": "merge", "strings": "strings"}[b.Kind]
+	opA := map[string]string{"dsl": "dsl", "json": "jsonall", "modfile": "modfile", "merge": "merge", "strings": "strings"}[a.Kind]
+	if op == "" || opA == "" {
+		return "", false
+	}
+	reqA, reqB := childReq{Op: opA, Text: a.Text, More: a.More}, childReq{Op: op, Text: b.Text, More: b.More}
+	seq, _ := json.Marshal([]childReq{reqA, reqB})
+	alone, ok1 := runChild(reqB, 90*time.Second)
+	after, ok2 := runChild(childReq{Op: "after", Text: string(seq)}, 90*time.Second)
+	if !(ok1 && ok2 && alone.Panic == "" && after.Panic == "") {
+		return "", false // inconclusive (C08 owns panics and hangs)
+	}
+	if alone.Result != after.Result {
+		return fmt.Sprintf("the first %s call of a fresh process changes the result of the second one: after the other call %.300q, as the first call of a process %.300q", b.Kind, after.Result, alone.Result), true
+	}
+	return "", true
+}
+
 func TestReplayC13(t *testing.T) {
 	for _, f := range ev.ReplayFiles("C13") {
 		var in c13Input
@@ -740,6 +811,13 @@ func TestReplayC13(t *testing.T) {
 			t.Fatalf("%s: %v", f, err)
 		}
 		rec := ev.New("C13", c13Rule)
+		if len(in.Steps) == 2 && in.Steps[0].Op == "first-call-a" && in.Steps[0].Doc != nil && in.Steps[1].Doc != nil {
+			if msg, _ := c13FirstCall(*in.Steps[0].Doc, *in.Steps[1].Doc); msg != "" {
+				rec.Violation(in, msg)
+				t.Errorf("%s: %s", f, msg)
+			}
+			continue
+		}
 		for rep := 0; rep < 3; rep++ {
 			mc := &c13Machine{}
 			c13HoldReset(true)
